@@ -76,6 +76,15 @@ Definition close_prog (c : config) (me : Z) (h : hnd) (k : Z -> hnd -> prog) : p
       if Bool.eqb (r0 r =? 0) (ec =? SUCCESS c) then fin ec else abort)           (* "fclose return value inconsistent" *)
   else fin (SUCCESS c).
 
+(* the class sc_io_read_at / sc_io_write_at return after the position-restoring fseek: `errcode` holds the class of the
+   transfer's errno; `if (errcode == sc_MPI_SUCCESS) sc_io_error_class (errno of the fseek, &errcode)`; return errcode
+   (the error of a partial transfer is not replaced by the result of the fseek) *)
+Definition at_tail (c : config) (e_xfer e_seek : Z) : Z :=
+  if errclass c e_xfer =? SUCCESS c then errclass c e_seek else errclass c e_xfer.
+(* the tail before repair 3510a9a (F-C12f): the class of the fseek's errno, whatever the transfer did.  Used by no program
+   and by no theorem except the refutation `at_old_tail_refuted` (a revert of the repair is a return to this function). *)
+Definition at_tail_old (c : config) (e_xfer e_seek : Z) : Z := errclass c e_seek.
+
 (* sc_io_read_at / sc_io_write_at (same code in A and C): k class ocount buffer *)
 Definition at_prog (c : config) (wr : bool) (me off size count : Z) (data : payload)
            (k : Z -> Z -> payload -> prog) : prog :=
@@ -90,7 +99,7 @@ Definition at_prog (c : config) (wr : bool) (me off size count : Z) (data : payl
         else (if wr then io K_FWRITE (size :: count :: data) else io K_FREAD [size; count]) (fun rx =>
           let oc := r0 rx in let e := r1 rx in
           if negb (e =? 0) && (oc =? 0) then k (errclass c e) oc (rdata rx)
-          else io K_FSEEK [pos; 0] (fun rr => k (errclass c (r1 rr)) oc (rdata rx))))).
+          else io K_FSEEK [pos; 0] (fun rr => k (at_tail c e (r1 rr)) oc (rdata rx))))).
 
 (* the token passing fallback of sc_io_read_at_all / sc_io_write_at_all (configuration C): k class ocount buffer handle *)
 Definition send_next (P me v : Z) (k : prog) : prog := if me <? P - 1 then send (me + 1) 1 [v] k else k.
@@ -311,8 +320,10 @@ Definition g_close (c : config) (P : Z) (g : gstate) : option (gstate * list Z) 
 
 Record rres := mkR { r_cls : Z; r_ocount : Z; r_buf : payload }.
 
-(* sc_io_read_at / sc_io_write_at by (logical) rank q on the stream of process 0 *)
-Definition g_at (c : config) (wr : bool) (g : gstate) (q size : Z) (a : carg) : gstate * rres :=
+(* sc_io_read_at / sc_io_write_at by (logical) rank q on the stream of process 0; `tail` = the class returned after the
+   position-restoring fseek as a function of the transfer's errno and the fseek's errno (`at_tail` in the code) *)
+Definition g_at_with (tail : config -> Z -> Z -> Z)
+           (c : config) (wr : bool) (g : gstate) (q size : Z) (a : carg) : gstate * rres :=
   let w := g_w g in
   if a_count a =? 0 then (g, mkR (SUCCESS c) 0 [])
   else
@@ -331,8 +342,10 @@ Definition g_at (c : config) (wr : bool) (g : gstate) (q size : Z) (a : carg) : 
           if negb (e3 =? 0) && (oc =? 0) then (mkG w3 (Some s3) (g_ctx g), mkR (errclass c e3) oc buf)
           else
             let '(w4, s4, r4, e4) := g_fseek w3 q s3 pos in
-            (mkG w4 (Some s4) (g_ctx g), mkR (errclass c e4) oc buf)
+            (mkG w4 (Some s4) (g_ctx g), mkR (tail c e3 e4) oc buf)
     end.
+
+Definition g_at : config -> bool -> gstate -> Z -> Z -> carg -> gstate * rres := g_at_with at_tail.
 
 (* one rank's turn in the token protocol: token in -> (world, stream of rank 0 afterwards, errval, ocount, buffer) *)
 Record turn := mkT { t_errval : Z; t_ocount : Z; t_buf : payload }.
